@@ -307,7 +307,7 @@ SPECS = {
         runs=lambda tier, seed: [Run("traitprobe", "debug", [], shards=1)],
         also_custom=custom.c12_corpus,
         also_families=("corpus",),
-        technique="compiler-verdict observation: rustc's accept/reject verdict (with error-code classes) on a generated corpus of 331 minimal programs in accept/reject pairs, plus run-time reflection of ~1100 trait facts decided by the real trait solver",
+        technique="compiler-verdict observation: rustc's accept/reject verdict (with error-code classes) on a generated corpus of ~340 minimal programs in accept/reject pairs (zip/compare/split/pop/convert across lengths, incl. the inverted_zip entry points; generic contexts; outlive/alias pairs for every reference-returning API), plus run-time reflection of ~1100 trait facts decided by the real trait solver",
         level="other",
         level_text=("(a) traitprobe: the inherent-const-beats-trait-const idiom makes the real trait solver report, in a compiled binary, whether "
                     "concrete types satisfy bounds: GenericArray / GenericArrayIter / Box / & are Send, Sync, Copy, Clone exactly when the element "
@@ -353,7 +353,7 @@ SPECS = {
     ),
     "C17": dict(
         engine="serdeq",
-        technique="recording Serializer (call-sequence monitor) + encodings vs tuple/Vec/concatenation references in JSON, bincode and serde_json::Value + scripted Deserializer/SeqAccess grid with ledger-tracked elements; Miri/memcheck",
+        technique="recording Serializer (call-sequence monitor) + encodings vs tuple/Vec/concatenation references in JSON, bincode and serde_json::Value + scripted Deserializer/SeqAccess grid with ledger-tracked elements (8-byte and zero-sized-with-Drop), fixed up-front hints against N = 4097 / 8192; Miri/memcheck",
         level="exploration",
         level_text=("A recording Serializer must see serialize_tuple(N), N x serialize_element in index order, end (never serialize_seq); JSON text must "
                     "equal the element list's, bincode bytes the concatenation of the elements' encodings with no length prefix, and JSON / bincode / "
@@ -377,7 +377,7 @@ SPECS = {
         also_custom=custom.both(custom.c18_custom, custom.corpus_for("C20")),
         also_families=("arr!", "corpus"),
         engine="arrmac",
-        technique="generated macro invocations with logging element expressions: evaluation-order recorder + type-level length reader + contents vs the values returned and vs the native literal; repeat forms count evaluations of x; const items evaluated by the compiler",
+        technique="generated macro invocations with logging element expressions: evaluation-order recorder + type-level length reader + contents vs the values returned and vs the native literal; repeat forms count evaluations of x (and Clone calls for an uncloneable single copy); const items evaluated by the compiler; accept probes (const-item operands, expression kinds, inference) compiled by rustc",
         level="exploration",
         level_text=("A generator writes arr![e0, ..., ek] and box_arr![...] invocations for EVERY element count 0..=64 and 100, 128, 255, 256 (with and "
                     "without trailing comma, non-Copy Tok and Copy u32 elements), where each ei logs its index when evaluated: the log must be "
@@ -415,7 +415,7 @@ SPECS = {
     ),
     "C14": dict(
         engine="hex",
-        technique="reference-model monitor: per-byte {:02x}/{:02X} concatenation truncated to the precision, for every precision on small N and boundary/random precisions on large N, in two feature builds; ASan/memcheck on the SIMD build, Miri on the fallback",
+        technique="reference-model monitor: per-byte {:02x}/{:02X} concatenation truncated to the precision, for every precision on small N and boundary/random precisions on large N, in two feature builds, with the stack poisoned before every call (uninitialised scratch buffers become visible); ASan/memcheck on the SIMD build (release and debug), Miri on the fallback",
         level="exploration",
         level_text=("N in 0..=17, 31..=33, 255, 256, 1023, 1024, 1025, 2047..2049, 3000, 4096 (all three internal strategies and both thresholds from "
                     "both sides) x six byte patterns (all 256 byte values tiled, 0xFF, 0x0F, 0xF0, two random) x lower/upper case x every precision "
@@ -494,7 +494,7 @@ SPECS = {
         also_custom=custom.corpus_for("C11"),
         also_families=("corpus",),
         engine="regroup",
-        technique="reference-model monitor (row-major index arithmetic on identities) + address/extent checks on by-reference regrouped views + write-through; ledger for the owned transmutes; Miri/ASan",
+        technique="reference-model monitor (row-major index arithmetic on identities) + address/extent checks on by-reference regrouped views + write-through; ledger for the owned transmutes incl. tracked 512-byte elements (arrays above 64 KiB); accept probes for every small (N, M) x form; Miri/ASan",
         level="exploration",
         level_text=("All (N, M) in 0..=6 x 0..=6 (49 flatten shapes, 42 unflatten shapes with N>=1 dividing NM) plus boundary pairs (1x1024, 1024x1, "
                     "16x64, 3x100, ...), owned / & / &mut forms, seven element flavours: flattened[i*N+j] must be inner[i][j] by identity, unflatten "
@@ -511,7 +511,7 @@ SPECS = {
     ),
     "C01": dict(
         engine="layout",
-        technique="compiler-computed size/align observers over the full (164 layouts x every N in 0..=1024) cross product and all larger typenum-named lengths; materialised arrays with address/extent checks; drop-glue tiling via the ledger; Miri round trips",
+        technique="compiler-computed size/align observers over the full (164 layouts x every N in 0..=1024) cross product and all larger typenum-named lengths; materialised arrays with address/extent checks; drop-glue tiling via the ledger; boxed placement; every regrouping view (chunks, from/into_chunks, flatten/unflatten) over 40 layouts; Miri round trips",
         level="exploration",
         level_text=("size_of/align_of of GenericArray<T,N> (and of its MaybeUninit twin) are compared with N*size_of::<T>() and align_of::<T>() for "
                     "164 element layouts (every byte size 0..=64, every alignment 2..64 x every multiple size, aligned zero-sized types up to 4096, "
@@ -597,7 +597,7 @@ SPECS = {
         also_custom=custom.corpus_for("C07"),
         also_families=("corpus",),
         engine="collect",
-        technique="scripted-source monitor: recording iterators (poll log, hint log) over the grid N x count x hint policy x fused x panic index; oracle from what the script delivered; ledger for pulled items",
+        technique="scripted-source monitor: recording iterators (poll log, hint log) over the grid N x count x hint policy x fused x panic index; oracle from what the script delivered and from what its hint policy answers at the start (whether or not it is asked); ledger for pulled items",
         level="exploration",
         level_text=("For every N in 0..=8 (16, 17, 33 in thorough), every delivered count 0..=N+3, fourteen size-hint policies (exact, absent, loose, "
                     "lying high/low in either bound, and fixed pairs around N), fused and non-fused sources, the four collecting forms and a "
@@ -617,7 +617,7 @@ SPECS = {
     ),
     "C03": dict(
         engine="history",
-        technique="random chained ownership histories against a shadow Vec model + ownership-ledger monitor; Miri/ASan on heap-payload elements",
+        technique="random chained ownership histories (sources with hidden, claimed and bounded size hints; Debug of live objects as observations) against a shadow Vec model + ownership-ledger monitor; Miri/ASan on heap-payload elements",
         level="exploration",
         level_text=("Seeded random histories of 40..200 chained operations (outputs of one are inputs of the next) over a pool of arrays, "
                     "by-value iterators, nested arrays, Vecs, boxed slices and elements handed to the caller; after every step each pooled "
@@ -677,7 +677,7 @@ SPECS = {
     ),
     "C04": dict(
         engine="faults",
-        technique="fault enumeration (injected panic at every callback index) + ownership-ledger monitor; Miri/ASan/memcheck on heap-payload elements",
+        technique="fault enumeration (injected panic at every callback index: closures, Clone incl. clone_from, Default, source iterators, builder/consumer positions) + ownership-ledger monitor; Miri/ASan/memcheck on heap-payload elements",
         level_text=("Every (operation-form, N, callback index) for N in 0..=6,8 is executed with a panic injected at that index; an "
                     "online ownership ledger over identity-carrying elements decides exactly-once drop, and the injected payload must "
                     "propagate. This is exhaustive over crash points for the small lengths, sampled for large N; Miri, ASan and memcheck "
@@ -699,7 +699,7 @@ SPECS = {
     ),
     "C05": dict(
         engine="faults",
-        technique="fault enumeration (destructor bomb on every element x every iterator position x every argument) + ownership-ledger monitor; Miri/ASan see double free / use after free",
+        technique="fault enumeration (destructor bomb on every element x every iterator position x every argument; objects that survive the caught panic are observed and drained afterwards; clone_from/assignment targets) + ownership-ledger monitor; Miri/ASan see double free / use after free",
         level_text=("For every operation that drops elements internally, every iterator position, every skip count and every choice of the one "
                     "element whose destructor panics (N<=6 exhaustively), the ledger checks that no element is dropped twice or observed after "
                     "its drop; leaks are waived as the statement allows."),
